@@ -19,6 +19,12 @@ class C01(Check):
 
     def cases(self, tier):
         yield from families.standard(tier)
+        # quasi-exact arithmetic far too coarse for the election (elected candidates drop below the quota, several hopefuls exceed it at once):
+        # the count must still terminate with the seats filled.  (The per-step monitors do not run these configurations: with more quota
+        # holders than seats the election clauses of C04 cannot all hold -- a scope limit, see DESIGN.md.)
+        coarse = [{'rule': 'meek', 'arithmetic': 'guarded', 'precision': 2}, {'rule': 'warren', 'arithmetic': 'guarded', 'precision': 3},
+                  {'rule': 'wigm', 'arithmetic': 'guarded', 'precision': 2}, {'rule': 'meek', 'arithmetic': 'guarded', 'precision': 1}]
+        yield from families.repo_files(coarse, max_bytes=4000 if tier == 'quick' else 10 ** 7)
         if tier == 'thorough':
             rat = [{'rule': 'meek', 'arithmetic': 'rational'}, {'rule': 'warren', 'arithmetic': 'rational'},
                    {'rule': 'meek', 'arithmetic': 'rational', 'omega': 3}]
